@@ -158,6 +158,9 @@ func c07Round(rep *Report, m *MultiFixture, round int, ts []c07Tunnel) {
 	if m.Kind == "openid" {
 		c07TwoAddresses(rep, m, round)
 	}
+	if round%5 == 1 {
+		c07Hold(rep, m, round)
+	}
 	sort.Slice(evs, func(i, j int) bool { return evs[i].seq < evs[j].seq })
 	var sb strings.Builder
 	for _, e := range evs {
@@ -534,4 +537,51 @@ func c07TwoAddresses(rep *Report, m *MultiFixture, round int) {
 		}
 	}
 	u.B.Reset()
+}
+
+// c07Hold: 24 tunnels (several per user, both transports) are opened up to an open channel and
+// all stay open until the last one is there: no tunnel's setup may wait for another tunnel to end.
+func c07Hold(rep *Report, m *MultiFixture, round int) {
+	const K = 24
+	type slot struct {
+		t   *TClient
+		err error
+	}
+	slots := make([]slot, K)
+	var wg sync.WaitGroup
+	for i := 0; i < K; i++ {
+		wg.Add(1)
+		go func(i int) {
+			defer wg.Done()
+			u := m.Users[i%len(m.Users)]
+			env := m.Env(u, Transports()[(i/len(m.Users))%len(Transports())])
+			env.W = 10 * time.Second
+			t, _, _, err := m.Stage(env, u, 4)
+			slots[i] = slot{t, err}
+		}(i)
+	}
+	wg.Wait()
+	failed := 0
+	var first error
+	for _, s := range slots {
+		if s.err != nil {
+			failed++
+			if first == nil {
+				first = s.err
+			}
+		}
+	}
+	for _, s := range slots {
+		if s.t != nil {
+			s.t.Close()
+		}
+	}
+	for _, u := range m.Users {
+		u.B.Reset()
+	}
+	rep.Eval(HashStr("hold", round, failed))
+	rep.Count("hold_rounds", 1)
+	if failed > 0 && m.GW.Alive() {
+		rep.Violate("C07/setup-waits-for-other-tunnels", fmt.Sprintf("%d tunnels were being opened and held open together: %d of them did not get through their setup within 10 s while the others stayed open (%v)", K, failed, first), nil)
+	}
 }
